@@ -410,15 +410,9 @@ impl TargetScheme for Action {
 }
 
 impl TargetScheme for PositionalOption {
-    fn compile(&self, buffer: &mut String, _: &mut dyn SchemeManager) -> CResult {
-        match self {
-            #[cfg(debug_assertions)]
-            _ => buffer.push_str("(UNIMPLEMENTED)"),
-            #[cfg(not(debug_assertions))]
-            _ => todo!(),
-        }
-
-        Ok(())
+    fn compile(&self, _: &mut String, _: &mut dyn SchemeManager) -> CResult {
+        // No positional option can be expressed by LiPE
+        Err(CompileError::UnsupportedOption(format!("{self:?}")))
     }
 }
 
